@@ -1,7 +1,7 @@
 (* C15 -- All observation channels of a simulation agree; illegal inputs are refused.
    Statements + `exact` (proofs in Sim/TraceProofs.v and IO/VcdProofs.v), then non-vacuity
    Examples decided by vm_compute. *)
-From PyRTL Require Import Base.PyZ Sim.TraceBase Sim.Trace Gen.InputGuards Sim.TraceProofs IO.Vcd IO.VcdProofs.
+From PyRTL Require Import Base.PyZ Sim.TraceBase Sim.Trace Gen.InputGuards Gen.StepOrder Sim.TraceProofs IO.Vcd IO.VcdProofs.
 From Coq Require Import Permutation Sorted String.
 Import List ListNotations.
 
@@ -48,6 +48,26 @@ Section Channels.
   Notation run := (run State stepf input_widths guard asserts).
   Notation step_multiple := (step_multiple State stepf input_widths guard asserts).
   Notation accepted ins := (bad_inputs input_widths guard ins || missing_inputs input_widths ins = false).
+
+  (* ---- the step order is not hand-written: Gen/StepOrder.v lists, for each simulator, the
+     observable events of one step() call in the order of the CURRENT source (py/genfrag_C15.py,
+     fail-closed statement classification); interpreted by `exec_order` they are exactly the
+     `sim_step` all theorems below are about.  Moving check_rtl_assertions in front of the tracer
+     call, storing input values while still validating, tracing before the values are published
+     ... changes the list and breaks these proofs. *)
+  Theorem C15_step_order_simulation : forall s ins,
+    exec_order State stepf input_widths guard asserts step_order_simulation s ins = sim_step s ins.
+  Proof. exact (step_order_simulation_ok State stepf input_widths guard asserts). Qed.
+
+  Theorem C15_step_order_fast : forall s ins,
+    exec_order State stepf input_widths guard asserts step_order_fast s ins = sim_step s ins.
+  Proof. exact (step_order_fast_ok State stepf input_widths guard asserts). Qed.
+
+  (* CompiledSimulation.step = run([inputs]); it checks no rtl_assert *)
+  Theorem C15_step_order_compiled : forall s ins,
+    exec_order State stepf input_widths guard [] step_order_compiled s ins
+    = Trace.sim_step State stepf input_widths guard [] s ins.
+  Proof. exact (step_order_compiled_ok State stepf input_widths guard). Qed.
 
   (* after every step that was not refused, for every traced wire: the last trace entry is
      inspect(w) (value map of Simulation, context of FastSimulation; for CompiledSimulation
@@ -174,6 +194,9 @@ Section Channels.
     step_multiple provided expected nsteps stop s = SmError e.
   Proof. exact (step_multiple_prologue_error State stepf input_widths guard asserts). Qed.
 End Channels.
+Print Assumptions C15_step_order_simulation.
+Print Assumptions C15_step_order_fast.
+Print Assumptions C15_step_order_compiled.
 Print Assumptions C15_inspect_is_last_after_step.
 Print Assumptions C15_inspect_is_last.
 Print Assumptions C15_rejected_step_changes_nothing.
@@ -306,6 +329,16 @@ Example C15_example_repeated_wires :
             (map (fun v => [(nm "a", v)]) [3; 7; 15]) with
   | (s, k, o) => k = 3%nat /\ str s = [(nm "o10", [3; 8; 17]); (nm "a", [3; 7; 15])]
   end.
+Proof. vm_compute. repeat split; reflexivity. Qed.
+
+(* the order matters: with check_rtl_assertions in front of the tracer call the failing cycle is
+   simulated but never traced (2 entries), with the generated orders it is traced (3 entries) *)
+Example C15_example_order_matters :
+  let s2 := fst (fst (ex_run [nm "ok"] [3; 7])) in
+  let len_after evs := trace_len (str (fst (exec_order Z ex_stepf ex_widths guard_simulation [nm "ok"] evs s2
+                                                       [(nm "a", 15)]))) in
+  len_after [EvValidate; EvCompute; EvCommit; EvPublish; EvAssert; EvTrace] = 2
+  /\ len_after step_order_fast = 3 /\ len_after step_order_simulation = 3.
 Proof. vm_compute. repeat split; reflexivity. Qed.
 
 (* a refused value (16 does not fit 4 bits) in the third call: two cycles traced, nothing else changes *)
